@@ -538,7 +538,7 @@ def r8_outputs(ctx, prog):
              "when mfile is written it is the model returned by make_model")
     fi = prog.func("AeRes.make_residual")
     body = sorted((s_ for s_ in walk_no_nested(fi.node)
-                   if isinstance(s_, (ast.Assign, ast.Expr))),
+                   if isinstance(s_, (ast.Assign, ast.Expr, ast.AugAssign))),
                   key=lambda s_: s_.lineno)
     model = [norm(s_.targets[0]) for s_ in body if isinstance(s_, ast.Assign)
              and isinstance(s_.value, ast.Call)
@@ -546,17 +546,29 @@ def r8_outputs(ctx, prog):
     if len(model) != 1:
         raise AnalysisError("C14-R8: make_model call of make_residual")
     model = model[0]
+    def combines(e):
+        """data +/- model somewhere in e (also under a conditional
+        expression)"""
+        return any(isinstance(x, ast.BinOp) and
+                   isinstance(x.op, (ast.Add, ast.Sub)) and
+                   model in names_in(x) and len(names_in(x)) >= 2
+                   for x in ast.walk(e))
     resid = {norm(s_.targets[0]) for s_ in body if isinstance(s_, ast.Assign)
-             and isinstance(s_.value, ast.BinOp)
-             and isinstance(s_.value.op, (ast.Add, ast.Sub))
-             and model in names_in(s_.value)}
+             and combines(s_.value)}
+    for s_ in body:
+        # in-place forms: data -= model
+        if isinstance(s_, ast.AugAssign) and isinstance(
+                s_.op, (ast.Add, ast.Sub)) and model in names_in(s_.value):
+            resid.add(norm(s_.target))
     role = {"rfile": resid, "mfile": {model}}
     cur = None
+    cur_is_resid = False
     n = 0
     for s_ in body:
         if isinstance(s_, ast.Assign) and \
                 norm(s_.targets[0]).endswith("].data"):
             cur = norm(s_.value)
+            cur_is_resid = combines(s_.value)
         if isinstance(s_, ast.Expr) and isinstance(s_.value, ast.Call) and \
                 isinstance(s_.value.func, ast.Attribute) and \
                 s_.value.func.attr == "writeto" and s_.value.args:
@@ -565,7 +577,8 @@ def r8_outputs(ctx, prog):
                 continue
             n += 1
             ctx.check("C14-R8", fi, "%s receives %s" % (dest, cur),
-                      cur in role[dest],
+                      cur in role[dest] or (dest == "rfile" and
+                                            cur_is_resid),
                       "the file %s is written while the HDU holds `%s`; "
                       "expected %s" % (dest, cur, sorted(role[dest])),
                       node=s_)
